@@ -211,6 +211,9 @@ def tnet_from( conn, addr,
                 if eof:
                     break
                 source.chain( msg )
+                # Symbols to ignore between TNET messages may arrive after we began awaiting this one
+                while ignore and not data and source.peek() is not None and source.peek() in ignore:
+                    next( source )
 
             # Terminal state, or EOF, or control.done.  Only yield another TNET message if terminal. 
             duration		= cpppo.timer() - started
